@@ -19,7 +19,7 @@ Definition C18_subst_full_statement : Prop :=
   forall (s : site) (md : mode) (m : mapping) (t : rty),
     mapping_ok m -> dom_m m t = true -> kf_C18 s md m t = false ->
     exists w wo, emit_type s md m t = Some w /\ emit_type s md [] t = Some wo /\
-                 c18_ok (site_is_type s md) m t w wo = true.
+                 c18_full_ok s md m t w wo = true.
 
 (* Nothing else: for EVERY string the analysis may hand over, every site, both modes - if no custom
    name of the parsed structure is a key of the table, the site prints byte for byte what it prints
@@ -49,7 +49,8 @@ Proof. exact sound_plain. Qed.
 (* All five sites, both modes, every constructor spine to depth 1 over String, i32, PathBuf, Uuid,
    DateTime<Utc>, User, table PathBuf->string, Uuid->number, DateTime<Utc>->boolean.
    [subst_at m s md t] reads: the model prints a text with and without the table and, unless the
-   case lies in a recorded class (kf_C18), the relational oracle c18_ok accepts the pair.
+   case lies in a recorded class (kf_C18, empty), the oracle c18_full_ok accepts the pair: relational
+   clause c18_ok AND absolute clause c18_abs_ok (the text denotes rshape m t, map keys included).
    Bounded, hence _partial. The depth-2 sweep is Proofs/C18Sweep2.v (compiled by the thorough tier,
    kept out of this closure because coqchk re-evaluates it without the VM). *)
 Theorem C18_sweep_depth1_partial :
@@ -78,6 +79,15 @@ Theorem C18_result_comma_repaired :
   emit_type SField MNone [] w18_result = Some (L "[PathBuf, number]") /\
   c18_ok true table18 w18_result (L "[string, number]") (L "[PathBuf, number]") = true.
 Proof. exact result_comma_repaired. Qed.
+
+(* a mapped name in map-key position: the model prints the target; an output that prints string with
+   and without the table passes the relational clause and is rejected by the absolute clause *)
+Theorem C18_map_key_absolute :
+  emit_type SField MNone table18 w18_key = Some (L "Record<number, string>") /\
+  c18_full_ok SField MNone table18 w18_key (L "Record<number, string>") (L "Record<Uuid, string>") = true /\
+  c18_ok true table18 w18_key (L "Record<string, string>") (L "Record<string, string>") = true /\
+  c18_full_ok SField MNone table18 w18_key (L "Record<string, string>") (L "Record<string, string>") = false.
+Proof. exact map_key_absolute. Qed.
 
 (* ---- premises are satisfiable on non-trivial inputs ---- *)
 Definition ex18 : rty :=
@@ -114,3 +124,8 @@ Print Assumptions C18_sweep_domain_depth1_partial.
 Print Assumptions C18_prefix_on_target_repaired.
 Print Assumptions C18_tuple_comma_repaired.
 Print Assumptions C18_result_comma_repaired.
+Print Assumptions C18_map_key_absolute.
+(*
+Print Assumptions C18_tuple_comma_repaired.
+Print Assumptions C18_result_comma_repaired.
+*)
